@@ -100,6 +100,24 @@ def scan_convert_regex():
     return dict(guard_size=gs, guard_align=ga, inc_before_call=inc_before, free_on_failure=free, same_payload=same), notes
 
 
+def probe_align_assertions(notes):
+    from .common import TARGET, harness_build, sh
+    ok, o = harness_build(["gendump"])
+    if not ok:
+        notes.append("gendump does not build: alignment-assertion probe not run")
+        return False
+    d = os.path.join(CACHE, "run", "t2-probe")
+    os.makedirs(d, exist_ok=True)
+    hf = os.path.join(d, "probe.hist")
+    open(hf, "w").write("A:0:8:8:0:2 A:1:2:2:0:2 C:0 R:0 C:0\n")
+    rc, out = sh([os.path.join(TARGET, "debug", "gendump"), "--file", hf, "--configs", "-"], timeout=120)
+    got = set(l.strip() for l in out.splitlines() if l.startswith("AALIGN"))
+    okp = rc == 0 and got == {"AALIGN 66 2", "AALIGN 264 8"}
+    if not okp:
+        notes.append("alignment assertions of the probe definition: %s" % sorted(got))
+    return okp
+
+
 def scan_flags():
     """T2: source-shape facts of the builder / generator"""
     notes = []
@@ -119,13 +137,10 @@ def scan_flags():
         f["max_size_over_variants"] = False
     try:
         g = strip_comments(open(os.path.join(REPO, "truc/src/generator/mod.rs")).read())
-        # an `align_of::<{..}>()` format string anywhere in the generator (mod.rs or a fragment)
-        gen_srcs = [g]
-        fdir = os.path.join(REPO, "truc/src/generator/fragment")
-        for fn in sorted(os.listdir(fdir)) if os.path.isdir(fdir) else []:
-            if fn.endswith(".rs"):
-                gen_srcs.append(strip_comments(open(os.path.join(fdir, fn)).read()))
-        f["align_assertions"] = any(re.search(r"align_of\s*::\s*<\s*\{[^}]*\}\s*>\s*\(\s*\)", x) for x in gen_srcs)
+        # behavioural, so that no rewriting of the generator's source disturbs it: the module generated for a fixed
+        # definition (a u64-like datum removed before the last variant, a u16-like one kept) asserts the alignment
+        # of BOTH types
+        f["align_assertions"] = probe_align_assertions(notes)
         srcs = [g, simple]
         for fn in ("fragment/record_impl.rs", "fragment/record.rs"):
             srcs.append(strip_comments(open(os.path.join(REPO, "truc/src/generator", fn)).read()))
@@ -160,6 +175,29 @@ def scan_data_regex():
     return prim, notes
 
 
+def probe_vec_flags(notes):
+    """the five facts of the vector conversion established by EXECUTING it on five small cases (dev build of
+    harness/src/bin/vecdrv.rs): used for the facts whose source shape the translator does not recognise"""
+    from .common import TARGET, harness_build, sh
+    ok, o = harness_build(["vecdrv"])
+    if not ok:
+        notes.append("vecdrv does not build: the probe of the vector conversion was not run")
+        return {}
+    cases = "g1 m_size_up 1 0 0\ng2 m_align_up 1 0 0\ne1 tok 3 1 0 4 0\np1 tok 3 1 0 6 0\ni1 tok 2 0 0 10\n"
+    rc, out = sh([os.path.join(TARGET, "debug", "vecdrv")], stdin=cases.encode(), timeout=120)
+    res = {}
+    for line in out.splitlines():
+        m = re.match(r"(\w+) ([\d,]+) # ?(.*)$", line)
+        if m:
+            res[m.group(1)] = ([int(x) for x in m.group(2).split(",")], m.group(3).strip())
+    def ok_case(k, head):
+        return k in res and res[k][0][:len(head)] == head and res[k][1] == ""
+    return {"guard_size": ok_case("g1", [4]), "guard_align": ok_case("g2", [4]),
+            "free_on_failure": ok_case("e1", [1, 7001]) and ok_case("p1", [2, 9001]),
+            "same_payload": ok_case("e1", [1, 7001]) and ok_case("p1", [2, 9001]),
+            "inc_before_call": ok_case("i1", [2, 9001])}
+
+
 def scan_runtime():
     """T1: facts of truc_runtime/src/{data,convert}.rs through the syn-based translator"""
     lines, notes = run_rtscan()
@@ -177,6 +215,14 @@ def scan_runtime():
             for kv in w[1:]:
                 k, v = kv.split("=")
                 conv[k] = v == "1"
+    if not all(conv.values()):
+        # a fact the translator could not read off the source shape (a restructured control flow looks the same as
+        # a wrong one to it) is established by execution instead; what the probe refutes stays false
+        probe = probe_vec_flags(notes)
+        for k in conv:
+            if not conv[k] and probe.get(k):
+                conv[k] = True
+                notes.append("convert.rs: `%s` not recognised in the source shape; established by executing the probe cases" % k)
     return conv, prim, notes
 
 
